@@ -38,38 +38,6 @@ inductive Reach : Bool → St → Prop
   | assign {d s : St} : Reach false d → Reach false s → Reach false (d.assignFrom s).1
   | insertAll {d s : St} : Reach false d → Reach false s → Reach false (d.insertAll s).1
 
-theorem invT_run (multi : Bool) (ops : List Op) : InvT (run multi ops) ∧ (run multi ops).multi = multi := by
-  unfold run
-  suffices h : ∀ s, InvT s → InvT (ops.foldl step' s) ∧ (ops.foldl step' s).multi = s.multi from
-    h _ (invT_init multi)
-  induction ops with
-  | nil => intro s hs; exact ⟨hs, rfl⟩
-  | cons op ops ih =>
-    intro s hs
-    simp only [List.foldl_cons]
-    have : InvT (step' s op) ∧ (step' s op).multi = s.multi := by
-      unfold step'
-      cases h : step s op with
-      | none => exact ⟨hs, rfl⟩
-      | some r => exact step_invT s hs op r h
-    obtain ⟨h1, h2⟩ := ih _ this.1
-    exact ⟨h1, by rw [h2, this.2]⟩
-
-theorem invO_run (multi : Bool) (ops : List Op) : InvO (run multi ops) := by
-  unfold run
-  suffices h : ∀ s, InvT s → InvO s → InvO (ops.foldl step' s) from h _ (invT_init multi) (invO_init multi)
-  induction ops with
-  | nil => intro s _ hs; exact hs
-  | cons op ops ih =>
-    intro s hI hO
-    simp only [List.foldl_cons]
-    have : InvT (step' s op) ∧ InvO (step' s op) := by
-      unfold step'
-      cases h : step s op with
-      | none => exact ⟨hI, hO⟩
-      | some r => exact ⟨(step_invT s hI op r h).1, step_invO s hI hO op r h⟩
-    exact ih _ this.1 this.2
-
 theorem reach_run (multi : Bool) (ops : List Op) : Reach multi (run multi ops) := by
   unfold run
   suffices h : ∀ s, Reach multi s → Reach multi (ops.foldl step' s) from h _ (Reach.init multi)
